@@ -36,12 +36,21 @@ def dF2R : GDist Float → GDist Rat
 def dist (j : Json) : J.R (GDist Rat) :=
   match j with
   | .str "inf" => .ok .inf
+  | .str "-inf" => .ok .nan      -- float overflow of a map function at a hugely negative distance:
+                                 -- outside `GDist`; the oracle treats it like the model does (`f2d`)
   | .str "nan" => .ok .nan
   | .null => .ok .nan
   | _ => GDist.fin <$> J.rat j
 
 def ofDist : GDist Rat → Json
   | .fin a => J.ofRat a
+  | .inf => .str "inf"
+  | .nan => .str "nan"
+
+/-- encoder for values computed in Float: keeps `-inf` apart from NaN so that the comparison with numpy
+    is literal -/
+def ofDistF : GDist Float → Json
+  | .fin f => if f.isInf && f < 0 then .str "-inf" else ofDist (f2d f)
   | .inf => .str "inf"
   | .nan => .str "nan"
 
@@ -121,7 +130,7 @@ def opMapfn : J.Op := fun j => do
   let d ← J.field j "d" (J.list dist)
   let r : List (GDist Float) := d.map fun x => mapD (mapF h) (x.map r2f)
   let inv : List (GDist Float) := r.map (invD (invF h))
-  pure <| J.obj [("r", J.ofList ofDist (r.map dF2R)), ("inv", J.ofList ofDist (inv.map dF2R))]
+  pure <| J.obj [("r", J.ofList ofDistF r), ("inv", J.ofList ofDistF inv)]
 
 /-- Spec of the map-function clause, on the implementation's r = mapfn(d) and dinv = invmapfn(r):
     zero ↦ zero, ∞ ↦ ½, range [0, ½], monotone, undone by the inverse (where binary64 can resolve it:
@@ -199,7 +208,7 @@ def opXoprob : J.Op := fun j => do
   let qchr ← J.field j "qchr" (J.list J.int)
   let qphy ← J.field j "qphy" (J.list J.rat)
   let (g, xo) := interpXoprob r2f (mapF h) rows qchr qphy
-  pure <| J.obj [("genpos", J.ofList ofPos g), ("xoprob", J.ofList ofDist (xo.map dF2R))]
+  pure <| J.obj [("genpos", J.ofList ofPos g), ("xoprob", J.ofList ofDistF xo)]
 
 /-- rprob1p / rprob2p (= mapfn ∘ gdist1p / gdist2p) and rprob1g / rprob2g on the interpolated positions -/
 def opRprob : J.Op := fun j => do
@@ -207,9 +216,9 @@ def opRprob : J.Op := fun j => do
   let rows ← J.field j "rows" (J.list row)
   let qchr ← J.field j "qchr" (J.list J.int)
   let qphy ← J.field j "qphy" (J.list J.rat)
-  let m : GDist Rat → GDist Rat := fun d => dF2R (mapD (mapF h) (d.map r2f))
-  pure <| J.obj [("r1", J.ofList ofDist ((gdist1p rows qchr qphy).map m)),
-                 ("r2", J.ofMat ofDist ((gdist2p rows qchr qphy).map (·.map m)))]
+  let m : GDist Rat → GDist Float := fun d => mapD (mapF h) (d.map r2f)
+  pure <| J.obj [("r1", J.ofList ofDistF ((gdist1p rows qchr qphy).map m)),
+                 ("r2", J.ofMat ofDistF ((gdist2p rows qchr qphy).map (·.map m)))]
 
 /-! ### Spec oracles (evaluated on the implementation's outputs) -/
 
